@@ -132,7 +132,10 @@ def b_cases(shard):
         size, lo, hi, maxk = shard["size"], shard["lo"], shard["hi"], shard["maxk"]
         ops = tuple(shard.get("ops") or ("not", "and", "or", "^", "==", "!=", "ite"))
         trees = b_trees(size, ops)
+        req = shard.get("require")
         for t in trees[lo:hi]:
+            if req and not _has_op(t, req):
+                continue
             nl = n_leaves(t)
             for lab in rgs(nl, maxk):
                 nv = max(lab) + 1
@@ -164,24 +167,513 @@ def b_shards(tier):
     for lo in range(0, ntl, 60):
         out.append({"fam": "B", "kind": "templates", "lo": lo, "hi": min(ntl, lo + 60)})
     # reduced labelings (variables numbered by first occurrence)
-    sizes = [(3, 5)] if tier == "quick" else [(3, 5), (4, 4)]
-    for size, maxk in sizes:
-        if size == 4:
-            ops = ("not", "and", "or", "^", "ite")
-        else:
-            ops = None
+    if tier == "quick":
+        plans = [(3, None, 5, None, 12)]
+    else:
+        plans = [(3, None, 5, None, 12),
+                 (4, ("not", "and", "or", "^"), 4, None, 40),
+                 (4, ("and", "or", "^", "==", "!="), 3, ("==", "!="), 40)]
+    for size, ops, maxk, require, step in plans:
         n = len(b_trees(size, ops) if ops else b_trees(size))
-        step = 12 if size == 3 else 40
         for lo in range(0, n, step):
             d = {"fam": "B", "kind": "trees", "size": size, "lo": lo, "hi": min(n, lo + step), "maxk": maxk}
             if ops:
                 d["ops"] = list(ops)
+            if require:
+                d["require"] = list(require)
             out.append(d)
     return out
 
 
+def _has_op(t, ops):
+    if t == "v":
+        return False
+    return t[0] in ops or any(_has_op(x, ops) for x in t[1:])
+
+
 # ----------------------------------------------------------------------------------------
-FAMILIES = {"B": (b_shards, b_cases)}
+# Template machinery for the other families
+# ----------------------------------------------------------------------------------------
+def expand(template, opts):
+    """All instantiations of `template` (str.format fields) over the product of the option lists."""
+    keys = sorted(opts)
+    for combo in itertools.product(*[opts[k] for k in keys]):
+        yield template.format(**dict(zip(keys, combo)))
+
+
+def bucket(s):
+    for w in (2, 4, 6, 8, 12, 16):
+        if s <= w:
+            return w
+    return 16
+
+
+ARITH = ["+", "-", "*", "&", "|", "^"]
+CMPS = ["==", "!=", "<", "<=", ">", ">="]
+WPAIRS_Q = [(2, 2), (2, 4), (4, 2), (3, 3), (4, 4)]
+
+
+def i1_depth1(wa, wb):
+    """Depth-1 integer expressions over a, b and constants; yields (expr, kind) kind in {'int','bool'}."""
+    consts = ["0", "1", "2", "3", "5", "6", str(2 ** max(wa, wb) - 1)]
+    consts = list(dict.fromkeys(consts))
+    leaves = ["a", "b"] + consts
+    for op in ARITH:
+        for x in leaves:
+            for y in leaves:
+                if x in consts and y in consts:
+                    continue
+                yield "%s %s %s" % (x, op, y), "int"
+    for op in CMPS:
+        for x in leaves:
+            for y in leaves:
+                if x in consts and y in consts:
+                    continue
+                yield "%s %s %s" % (x, op, y), "bool"
+    for v in ("a", "b"):
+        yield "~%s" % v, "int"
+        for k in (0, 1, 2, 3):
+            yield "%s << %d" % (v, k), "int"
+            yield "%s >> %d" % (v, k), "int"
+            yield "%s ** %d" % (v, k), "int"
+        for m in (1, 2, 4, 8):
+            yield "%s %% %d" % (v, m), "int"
+        for i in range(4):
+            yield "%s[%d]" % (v, i), "bool"
+    yield "a", "int"
+    yield "b", "int"
+
+
+def i1_src(expr, wa, wb, rt):
+    return "def tfun(a: Qint[%d], b: Qint[%d]) -> %s:\n    return %s\n" % (wa, wb, rt, expr)
+
+
+def i1_rets(wa, wb):
+    lo, hi = min(wa, wb), max(wa, wb)
+    r = [lo, hi, bucket(hi + 2)]
+    return ["Qint[%d]" % w for w in dict.fromkeys(r)]
+
+
+D2_LEAVES = ["a", "b", "1", "3"]
+D2_OPS = ["+", "-", "*", "&", "|", "^"]
+
+
+def i1_depth2(leaves=D2_LEAVES):
+    """(x op1 y) op2 z and x op2 (y op1 z); unary/shift wrappers of depth-1; comparisons on top."""
+    for op1 in D2_OPS:
+        for op2 in D2_OPS:
+            for x in leaves:
+                for y in leaves:
+                    if x.isdigit() and y.isdigit():
+                        continue
+                    for z in leaves:
+                        yield "(%s %s %s) %s %s" % (x, op1, y, op2, z), "int"
+                        yield "%s %s (%s %s %s)" % (z, op2, x, op1, y), "int"
+    for op1 in D2_OPS:
+        for x in leaves:
+            for y in leaves:
+                if x.isdigit() and y.isdigit():
+                    continue
+                e = "(%s %s %s)" % (x, op1, y)
+                yield "~%s" % e, "int"
+                for k in (1, 2):
+                    yield "%s << %d" % (e, k), "int"
+                    yield "%s >> %d" % (e, k), "int"
+                yield "%s %% 2" % e, "int"
+                yield "%s %% 4" % e, "int"
+                yield "%s ** 2" % e, "int"
+                for c in CMPS:
+                    for z in leaves:
+                        yield "%s %s %s" % (e, c, z), "bool"
+                        yield "%s %s %s" % (z, c, e), "bool"
+    for c1 in CMPS:
+        for c2 in ("==", "<", ">="):
+            for bop in ("and", "or", "^", "=="):
+                yield "(a %s b) %s (a %s 1)" % (c1, bop, c2), "bool"
+                yield "(a %s 2) %s (b %s a)" % (c1, bop, c2), "bool"
+    for c1 in CMPS:
+        for x in ("a", "b", "1", "3"):
+            for y in ("a", "b", "2"):
+                yield "(%s if a %s b else %s)" % (x, c1, y), "int"
+                yield "(%s if a %s 1 else %s) + 1" % (x, c1, y), "int"
+
+
+def i1_shards(tier):
+    out = []
+    pairs = WPAIRS_Q if tier == "quick" else WPAIRS_Q + [(3, 2), (2, 3), (4, 3)]
+    for wa, wb in pairs:
+        out.append({"fam": "I1", "kind": "d1", "wa": wa, "wb": wb})
+    d2pairs = [(2, 2)] if tier == "quick" else [(2, 2), (2, 4), (4, 2), (3, 3)]
+    for wa, wb in d2pairs:
+        n = sum(1 for _ in i1_depth2())
+        step = 400
+        for lo in range(0, n, step):
+            out.append({"fam": "I1", "kind": "d2", "wa": wa, "wb": wb, "lo": lo, "hi": min(n, lo + step)})
+    return out
+
+
+def i1_cases(shard):
+    wa, wb = shard["wa"], shard["wb"]
+    if shard["kind"] == "d1":
+        for e, kind in i1_depth1(wa, wb):
+            rts = ["bool"] if kind == "bool" else i1_rets(wa, wb)
+            for rt in rts:
+                yield {"src": i1_src(e, wa, wb, rt), "fam": "I1"}
+    else:
+        rts_int = ["Qint[%d]" % max(wa, wb), "Qint[%d]" % bucket(2 * max(wa, wb))]
+        for e, kind in itertools.islice(i1_depth2(), shard["lo"], shard["hi"]):
+            rts = ["bool"] if kind == "bool" else rts_int
+            for rt in rts:
+                yield {"src": i1_src(e, wa, wb, rt), "fam": "I1"}
+
+
+# ----------------------------------------------------------------------------------------
+# Family S: statements
+# ----------------------------------------------------------------------------------------
+def s_templates(tier):
+    """List of (template, options).  Templates use 4-space indentation; {..} are format fields."""
+    E = ["a + b", "a - b", "a & b", "a ^ 1", "b + 1", "a * b", "a | 2", "~a", "b >> 1", "a << 1"]
+    Es = ["a + b", "a - 1", "a ^ b", "b + 3"]
+    L = ["a", "b", "1", "2", "3"]
+    OP = ["+", "-", "&", "|", "^", "*"]
+    OPs = ["+", "-", "^"]
+    C = ["a > b", "a == b", "a != 1", "b < 2", "a[0]", "a >= 2", "not a[1]"]
+    Cs = ["a > b", "a == 1", "b[0]"]
+    SIG = ["a: Qint[2], b: Qint[2]", "a: Qint[2], b: Qint[4]", "a: Qint[4], b: Qint[2]"]
+    SIG1 = ["a: Qint[2], b: Qint[2]", "a: Qint[2], b: Qint[4]"]
+    RT = ["Qint[2]", "Qint[4]"]
+    T = []
+    # temp assignment + reuse
+    T.append(("def tfun({sig}) -> {rt}:\n    c = {e}\n    return c\n", {"sig": SIG, "rt": RT, "e": E}))
+    T.append(("def tfun({sig}) -> {rt}:\n    c = {e}\n    return c {op} {l}\n", {"sig": SIG1, "rt": ["Qint[4]"], "e": Es, "op": OP, "l": L}))
+    T.append(("def tfun({sig}) -> {rt}:\n    c = {e}\n    d = c {op} c\n    return d {op2} c\n",
+              {"sig": SIG1, "rt": ["Qint[4]"], "e": Es, "op": OPs, "op2": OPs}))
+    # self re-assignment, aug-assign
+    T.append(("def tfun({sig}) -> {rt}:\n    a = a {op} {l}\n    return a\n", {"sig": SIG, "rt": RT, "op": OP, "l": L}))
+    T.append(("def tfun({sig}) -> {rt}:\n    a {op}= {l}\n    return a\n", {"sig": SIG, "rt": RT, "op": OP, "l": L}))
+    T.append(("def tfun({sig}) -> {rt}:\n    a {op}= {l}\n    a {op2}= {l2}\n    return a {op3} b\n",
+              {"sig": SIG1, "rt": ["Qint[4]"], "op": OPs, "l": ["b", "1"], "op2": OPs, "l2": ["a", "b", "3"], "op3": OPs}))
+    T.append(("def tfun({sig}) -> {rt}:\n    c = {l}\n    c {op}= {l2}\n    return c\n",
+              {"sig": SIG1, "rt": RT, "l": ["0", "1", "3", "a"], "op": OPs, "l2": ["a", "b", "1", "3"]}))
+    # multi-target assignment / swap / unpacking
+    T.append(("def tfun({sig}) -> {rt}:\n    a, b = b, a\n    return a {op} b\n", {"sig": SIG, "rt": RT, "op": OP + ["<", ">"][:0]}))
+    T.append(("def tfun({sig}) -> bool:\n    a, b = b, a\n    return a {c} b\n", {"sig": SIG, "c": CMPS}))
+    T.append(("def tfun({sig}) -> {rt}:\n    c, d = {x}, {y}\n    return c {op} d\n",
+              {"sig": SIG1, "rt": ["Qint[4]"], "x": ["a", "b", "a + 1", "1"], "y": ["b", "a", "b - 1", "2"], "op": OPs}))
+    T.append(("def tfun({sig}) -> {rt}:\n    t = ({x}, {y})\n    c, d = t\n    return c {op} d\n",
+              {"sig": SIG1, "rt": ["Qint[4]"], "x": ["a", "b"], "y": ["b", "a"], "op": OPs}))
+    T.append(("def tfun({sig}) -> {rt}:\n    t = ({x}, {y})\n    return t[{i}] {op} t[{j}]\n",
+              {"sig": SIG1, "rt": ["Qint[4]"], "x": ["a", "b", "a + b"], "y": ["b", "a", "1"], "i": ["0", "1"], "j": ["0", "1"], "op": OPs}))
+    T.append(("def tfun(a: bool, b: bool, c: bool) -> bool:\n    a, b, c = {x}, {y}, {z}\n    return {r}\n",
+              {"x": ["b", "c", "not a"], "y": ["a", "c", "a and b"], "z": ["a", "b", "a ^ c"], "r": ["a and not b", "a ^ b ^ c", "(a or b) and c"]}))
+    # if / else
+    T.append(("def tfun({sig}) -> {rt}:\n    c = {init}\n    if {cond}:\n        c = {e1}\n    else:\n        c = {e2}\n    return c\n",
+              {"sig": SIG1, "rt": ["Qint[4]"], "init": ["0", "a"], "cond": C, "e1": ["a", "a + 1", "3"], "e2": ["b", "b - 1", "0"]}))
+    T.append(("def tfun({sig}) -> {rt}:\n    c = {init}\n    if {cond}:\n        c = {e1}\n    return c\n",
+              {"sig": SIG, "rt": RT, "init": ["0", "1", "a", "b"], "cond": C, "e1": ["a", "b", "a + b", "c + 1", "3"]}))
+    T.append(("def tfun({sig}) -> {rt}:\n    c = {init}\n    if {cond}:\n        c {op}= {l}\n    else:\n        c {op2}= {l2}\n    return c\n",
+              {"sig": SIG1, "rt": ["Qint[4]"], "init": ["0", "a"], "cond": Cs, "op": OPs, "l": ["1", "b"], "op2": OPs, "l2": ["2", "a"]}))
+    T.append(("def tfun({sig}) -> {rt}:\n    if {cond}:\n        c = {e1}\n    else:\n        c = {e2}\n    return c\n",
+              {"sig": SIG1, "rt": ["Qint[4]"], "cond": C, "e1": ["a", "a + 1", "1"], "e2": ["b", "b ^ a", "2"]}))
+    T.append(("def tfun({sig}) -> {rt}:\n    c = 0\n    d = 1\n    if {cond}:\n        c = {e1}\n        d = c {op} {l}\n    else:\n        d = {e2}\n    return c {op2} d\n",
+              {"sig": SIG1, "rt": ["Qint[4]"], "cond": Cs, "e1": ["a", "b + 1"], "op": OPs, "l": ["1", "a"], "e2": ["b", "3"], "op2": OPs}))
+    T.append(("def tfun({sig}) -> {rt}:\n    c = 0\n    if {cond}:\n        if {cond2}:\n            c = {e1}\n        else:\n            c = {e2}\n    else:\n        c = {e3}\n    return c\n",
+              {"sig": SIG1, "rt": ["Qint[4]"], "cond": Cs, "cond2": ["a == b", "b > 1", "a[1]"], "e1": ["a", "1"], "e2": ["b", "a + b"], "e3": ["2", "a ^ b"]}))
+    T.append(("def tfun({sig}) -> {rt}:\n    c = 0\n    if {cond}:\n        c = 1\n    elif {cond2}:\n        c = 2\n    else:\n        c = {e3}\n    return c\n",
+              {"sig": SIG1, "rt": RT, "cond": C, "cond2": ["a == b", "b > 1", "a[1]"], "e3": ["3", "a"]}))
+    T.append(("def tfun(a: bool, b: bool, c: bool) -> bool:\n    d = {init}\n    if {cond}:\n        d = {e1}\n    else:\n        d = {e2}\n    return {r}\n",
+              {"init": ["False", "True", "c"], "cond": ["a", "not b", "a and b", "a ^ c"], "e1": ["not a", "b", "c or d"], "e2": ["True", "a and c", "not d"],
+               "r": ["d", "d and a", "d ^ c"]}))
+    # for loops
+    T.append(("def tfun({sig}) -> {rt}:\n    for i in range({k}):\n        a {op}= {l}\n    return a\n",
+              {"sig": SIG, "rt": RT, "k": ["0", "1", "2", "3", "4"], "op": OPs, "l": ["1", "i", "b", "a"]}))
+    T.append(("def tfun({sig}) -> {rt}:\n    c = {init}\n    for i in range({k}):\n        c = c {op} {l}\n    return c\n",
+              {"sig": SIG1, "rt": RT, "init": ["0", "1", "a"], "k": ["1", "2", "3"], "op": ["+", "-", "&", "|", "^"], "l": ["1", "i", "b", "a"]}))
+    T.append(("def tfun(a: Qint[2], b: Qint[2]) -> {rt}:\n    c = {init}\n    for i in range({k}):\n        c = c * {l}\n    return c\n",
+              {"rt": ["Qint[4]"], "init": ["1", "a"], "k": ["1", "2"], "l": ["2", "3", "i", "b"]}))
+    T.append(("def tfun({sig}) -> {rt}:\n    c = 0\n    for i in range({k}):\n        for j in range({k2}):\n            c {op}= {l}\n    return c\n",
+              {"sig": SIG1, "rt": ["Qint[4]"], "k": ["1", "2"], "k2": ["1", "2"], "op": OPs, "l": ["1", "i", "j", "a", "i + j"]}))
+    T.append(("def tfun({sig}) -> {rt}:\n    c = 0\n    for i in range({lo}, {hi}):\n        c += {l}\n    return c\n",
+              {"sig": SIG1, "rt": ["Qint[4]"], "lo": ["0", "1", "2"], "hi": ["2", "3", "4"], "l": ["i", "1", "a"]}))
+    T.append(("def tfun({sig}) -> {rt}:\n    c = 0\n    for i in range({k}):\n        if {cond}:\n            c += {l}\n    return c\n",
+              {"sig": SIG1, "rt": ["Qint[4]"], "k": ["1", "2", "3"], "cond": ["a > i", "a[i]", "b == i", "a > b"], "l": ["1", "i", "a"]}))
+    T.append(("def tfun({sig}) -> {rt}:\n    c = 0\n    for x in [{l1}, {l2}, {l3}]:\n        c {op}= x\n    return c\n",
+              {"sig": SIG1, "rt": ["Qint[4]"], "l1": ["1", "a"], "l2": ["2", "b"], "l3": ["3", "a"], "op": OPs}))
+    T.append(("def tfun({sig}) -> {rt}:\n    l = [{l1}, {l2}]\n    c = {init}\n    for x in l:\n        c {op}= x\n    return c\n",
+              {"sig": SIG1, "rt": ["Qint[4]"], "l1": ["1", "a", "a + b"], "l2": ["3", "b"], "init": ["0", "a"], "op": OPs}))
+    T.append(("def tfun(a: bool, b: bool, c: bool) -> bool:\n    d = {init}\n    for i in range({k}):\n        d = {e}\n    return d\n",
+              {"init": ["False", "True", "a"], "k": ["0", "1", "2", "3", "5"], "e": ["not d", "d ^ b", "d and c", "(d or a) ^ c", "a if d else b"]}))
+    # list-constant lookups
+    LST = ["[1, 3, 2, 0]", "[0, 1, 2, 3]", "[3, 3, 0, 1]", "[2, 0, 1, 5]"]
+    T.append(("def tfun({sig}) -> {rt}:\n    c = {lst}\n    return c[a]\n", {"sig": ["a: Qint[2]", "a: Qint[2], b: Qint[2]"], "rt": RT, "lst": LST}))
+    T.append(("def tfun(a: Qint[2], b: Qint[2]) -> {rt}:\n    c = {lst}\n    return c[a] {op} c[b]\n", {"rt": ["Qint[4]"], "lst": LST, "op": OPs + ["=="][:0]}))
+    T.append(("def tfun(a: Qint[2], b: Qint[2]) -> bool:\n    c = {lst}\n    return c[a] {cmp} {l}\n", {"lst": LST, "cmp": CMPS, "l": ["b", "1", "c[b]"]}))
+    T.append(("def tfun(a: Qint[2], b: Qint[2]) -> {rt}:\n    c = {lst}\n    d = 0\n    for i in range({k}):\n        d += c[i]\n    return d {op} a\n",
+              {"rt": ["Qint[4]"], "lst": LST, "k": ["1", "2", "4"], "op": OPs}))
+    T.append(("def tfun(a: Qint[2], b: Qint[2]) -> {rt}:\n    c = {lst}\n    i = {init}\n    if {cond}:\n        i = {e}\n    return c[i]\n",
+              {"rt": ["Qint[4]"], "lst": LST[:2], "init": ["0", "1", "a"], "cond": ["a > b", "a == 1"], "e": ["b", "2", "a"]}))
+    T.append(("def tfun(a: Qint[2], b: Qint[2]) -> {rt}:\n    c = {lst}\n    i = {init}\n    i = {e}\n    return c[i]\n",
+              {"rt": ["Qint[4]"], "lst": LST[:2], "init": ["0", "1"], "e": ["b", "a", "i + 1", "a ^ b"]}))
+    T.append(("def tfun(a: Qint[2]) -> bool:\n    c = [{b0}, {b1}, {b2}, {b3}]\n    return c[a]\n",
+              {"b0": ["True", "False"], "b1": ["True", "False"], "b2": ["True", "False"], "b3": ["True", "False"]}))
+    T.append(("def tfun(a: Qint[2], b: Qint[2]) -> {rt}:\n    c = [[1, 2], [3, 0]]\n    return c[{i}][{j}] {op} {l}\n",
+              {"rt": ["Qint[4]"], "i": ["0", "1"], "j": ["0", "1"], "op": OPs, "l": ["a", "1"]}))
+    T.append(("def tfun(a: bool, b: bool) -> {rt}:\n    c = [[1, 2], [3, 0]]\n    i = {ei}\n    j = {ej}\n    return c[i][j]\n",
+              {"rt": ["Qint[2]", "Qint[4]"], "ei": ["0", "1"], "ej": ["0", "1"]}))
+    # print ignored, expression statements
+    T.append(("def tfun({sig}) -> {rt}:\n    print(a)\n    c = {e}\n    print(c, b)\n    return c\n", {"sig": SIG1, "rt": ["Qint[4]"], "e": Es}))
+    if tier == "thorough":
+        E2 = E + ["a + b + 1", "(a ^ b) + a", "a * 3", "b - a"]
+        T.append(("def tfun({sig}) -> {rt}:\n    c = {e}\n    d = {e2}\n    return c {op} d\n", {"sig": SIG, "rt": ["Qint[4]"], "e": E2, "e2": E2, "op": OP}))
+        T.append(("def tfun({sig}) -> bool:\n    c = {e}\n    d = {e2}\n    return c {cmp} d\n", {"sig": SIG1, "e": E2, "e2": E2, "cmp": CMPS}))
+        T.append(("def tfun({sig}) -> {rt}:\n    c = {init}\n    if {cond}:\n        c = {e1}\n    else:\n        c = {e2}\n    return c {op} {l}\n",
+                  {"sig": SIG, "rt": ["Qint[4]"], "init": ["0", "a"], "cond": C, "e1": E2[:8], "e2": E2[:8], "op": OPs, "l": ["1", "a"]}))
+        T.append(("def tfun({sig}) -> {rt}:\n    c = {init}\n    for i in range({k}):\n        c = {e}\n    return c\n",
+                  {"sig": SIG, "rt": RT, "init": ["0", "1", "a", "b"], "k": ["1", "2", "3", "4"],
+                   "e": ["c + a", "c ^ (a + i)", "(c + b) & 3", "c * 2 + i", "a if c > b else c + 1", "c - i", "~c", "c + c"]}))
+    return T
+
+
+def _tmpl_cases(templates, shard):
+    """Instantiations lo..hi of template ti, skipping sources already produced by an earlier template
+    or an earlier instantiation (so every program is a distinct state)."""
+    ti = shard["ti"]
+    t, o = templates[ti]
+    seen = set()
+    for tj in range(ti):
+        seen.update(expand(*templates[tj])) if _overlap(templates[tj][0], t) else None
+    for i, src in enumerate(expand(t, o)):
+        if i >= shard["hi"]:
+            break
+        if src in seen:
+            continue
+        seen.add(src)
+        if i >= shard["lo"]:
+            yield src
+
+
+def _overlap(t1, t2):
+    # templates can only produce equal programs if their first lines have the same shape
+    return t1.split("\n")[0].split("(")[0] == t2.split("\n")[0].split("(")[0] and t1.count("\n") == t2.count("\n")
+
+
+def _tmpl_shards(fam, templates, step):
+    out = []
+    for ti, (t, o) in enumerate(templates):
+        n = 1
+        for v in o.values():
+            n *= len(v)
+        for lo in range(0, n, step):
+            out.append({"fam": fam, "ti": ti, "lo": lo, "hi": min(n, lo + step)})
+    return out
+
+
+def s_shards(tier):
+    out = _tmpl_shards("S", s_templates(tier), 40)
+    for d in out:
+        d["tier"] = tier
+    return out
+
+
+def s_cases(shard):
+    for src in _tmpl_cases(s_templates(shard["tier"]), shard):
+        yield {"src": src, "fam": "S"}
+
+
+# ----------------------------------------------------------------------------------------
+# Family T: types and builtins
+# ----------------------------------------------------------------------------------------
+def t_templates(tier):
+    T = []
+    OPs = ["+", "-", "^"]
+    # tuple / list / matrix arguments
+    T.append(("def tfun(a: Tuple[{t0}, {t1}]) -> {rt}:\n    return {e}\n",
+              {"t0": ["Qint[2]"], "t1": ["Qint[2]", "Qint[4]"], "rt": ["Qint[4]"], "e": ["a[0] + a[1]", "a[1] - a[0]", "a[0]", "a[1]", "a[0] * a[1]", "a[1] & a[0]"]}))
+    T.append(("def tfun(a: Tuple[{t0}, {t1}]) -> bool:\n    return {e}\n",
+              {"t0": ["Qint[2]"], "t1": ["Qint[2]", "Qint[4]"], "e": ["a[0] > a[1]", "a[0] == a[1]", "a[1] <= a[0]", "a[0][0] and a[1][1]", "a[0] != 1"]}))
+    T.append(("def tfun(a: Tuple[bool, Qint[2]], b: Tuple[Qint[2], bool]) -> {rt}:\n    return {e}\n",
+              {"rt": ["Qint[2]", "Qint[4]"], "e": ["a[1] + b[0]", "(a[1] if a[0] else b[0])", "(a[1] if b[1] else a[1] + 1)", "b[0] - a[1]"]}))
+    T.append(("def tfun(a: Tuple[bool, Qint[2]], b: Tuple[Qint[2], bool]) -> bool:\n    return {e}\n",
+              {"e": ["a[0] and b[1]", "a[0] ^ b[1]", "a[1] == b[0]", "a[1] > b[0] or a[0]", "a[1][0] == b[1]"]}))
+    T.append(("def tfun(a: Tuple[Tuple[bool, Qint[2]], bool]) -> {rt}:\n    return {e}\n",
+              {"rt": ["Qint[2]"], "e": ["a[0][1]", "a[0][1] + 1", "(a[0][1] if a[1] else 0)", "(a[0][1] if a[0][0] else 3)"]}))
+    T.append(("def tfun(a: Tuple[Tuple[bool, Qint[2]], bool]) -> bool:\n    return {e}\n",
+              {"e": ["a[0][0]", "a[1] and a[0][0]", "a[0][1] == 2", "a[0][1][1] ^ a[1]"]}))
+    T.append(("def tfun(a: Qlist[Qint[2], {n}]) -> {rt}:\n    return {e}\n",
+              {"n": ["2", "3"], "rt": ["Qint[2]", "Qint[4]"], "e": ["a[0] + a[1]", "sum(a)", "max(a)", "min(a)", "a[0]", "a[1] - a[0]", "max(a) - min(a)", "a[len(a) - 1]"]}))
+    T.append(("def tfun(a: Qlist[Qint[2], {n}]) -> bool:\n    return {e}\n",
+              {"n": ["2", "3"], "e": ["a[0] == a[1]", "a[0] > a[1]", "len(a) == 2", "max(a) == a[0]", "sum(a) == 3", "min(a) < 2"]}))
+    T.append(("def tfun(a: Qlist[bool, {n}]) -> bool:\n    return {e}\n",
+              {"n": ["2", "3", "4"], "e": ["all(a)", "any(a)", "a[0] and a[1]", "a[0] ^ a[1]", "not a[0]", "all(a) or not any(a)", "a[len(a) - 1]", "any(a) and not all(a)"]}))
+    T.append(("def tfun(a: Qlist[bool, {n}]) -> bool:\n    c = {init}\n    for x in a:\n        c = {e}\n    return c\n",
+              {"n": ["2", "3"], "init": ["True", "False"], "e": ["c and x", "c or x", "c ^ x", "not c if x else c"]}))
+    T.append(("def tfun(a: Qlist[Qint[2], {n}]) -> {rt}:\n    c = {init}\n    for x in a:\n        c {op}= x\n    return c\n",
+              {"n": ["2", "3"], "rt": ["Qint[2]", "Qint[4]"], "init": ["0", "1"], "op": OPs}))
+    T.append(("def tfun(a: Qlist[Qint[2], {n}]) -> {rt}:\n    c = 0\n    for i in range(len(a)):\n        c {op}= a[i]\n    return c\n",
+              {"n": ["2", "3"], "rt": ["Qint[4]"], "op": OPs}))
+    T.append(("def tfun(a: Qlist[Qint[2], 2], i: Qint[2]) -> {rt}:\n    return a[i]\n", {"rt": ["Qint[2]", "Qint[4]"]}))
+    T.append(("def tfun(a: Qlist[bool, {n}], i: Qint[2]) -> bool:\n    return a[i]\n", {"n": ["2", "3", "4"]}))
+    T.append(("def tfun(a: Qmatrix[bool, 2, 2]) -> bool:\n    return {e}\n",
+              {"e": ["a[0][0]", "a[0][1]", "a[1][0]", "a[1][1]", "a[0][0] and a[1][1]", "a[0][1] ^ a[1][0]", "len(a) == 2", "len(a[0]) == 2"]}))
+    T.append(("def tfun(a: Qmatrix[bool, 2, 3]) -> bool:\n    return {e}\n",
+              {"e": ["a[0][2]", "a[1][0]", "a[1][2] and a[0][0]", "len(a) == 2", "len(a[0]) == 3", "len(a[1]) == 2"]}))
+    T.append(("def tfun(a: Qmatrix[Qint[2], 2, 2]) -> {rt}:\n    return {e}\n",
+              {"rt": ["Qint[2]", "Qint[4]"], "e": ["a[0][0]", "a[1][0] + a[0][1]", "a[1][1] - a[0][0]", "a[0][1]", "a[1][0]"]}))
+    T.append(("def tfun(a: Qmatrix[bool, 2, 2], i: bool, j: bool) -> bool:\n    x = {ei}\n    y = {ej}\n    return {e}\n",
+              {"ei": ["1 if i else 0", "0 if i else 1"], "ej": ["1 if j else 0", "0"], "e": ["a[x][y]", "a[y][x]"]}))
+    T.append(("def tfun(a: Qmatrix[bool, 2, 2]) -> bool:\n    c = {init}\n    for r in a:\n        for x in r:\n            c = {e}\n    return c\n",
+              {"init": ["True", "False"], "e": ["c and x", "c ^ x", "c or x"]}))
+    # results of every shape
+    T.append(("def tfun(a: Qint[2], b: bool) -> Tuple[{t0}, {t1}]:\n    return ({e0}, {e1})\n",
+              {"t0": ["bool", "Qint[2]"], "t1": ["bool", "Qint[2]"], "e0": ["a", "b", "a + 1", "not b", "a > 1"], "e1": ["a", "b", "a ^ 3", "b and a[0]"]}))
+    T.append(("def tfun(a: Qint[2], b: bool) -> Tuple[Tuple[bool, Qint[2]], bool]:\n    return (({e0}, {e1}), {e2})\n",
+              {"e0": ["b", "a[0]", "not b"], "e1": ["a", "a + 1", "3"], "e2": ["b", "a == 2", "True"]}))
+    T.append(("def tfun(a: Qint[2], b: Qint[2]) -> Qlist[Qint[2], {n}]:\n    return [{es}]\n",
+              {"n": ["2"], "es": ["a, b", "b, a", "a, a", "a + b, a - b", "1, a", "a + 1, a + 1"]}))
+    T.append(("def tfun(a: Qint[2], b: Qint[2]) -> Qlist[Qint[2], 3]:\n    return [{es}]\n", {"es": ["a, b, a", "b, b, b", "a ^ b, 3, a"]}))
+    T.append(("def tfun(a: Tuple[{t0}, {t1}]) -> Tuple[{t0}, {t1}]:\n    return a\n", {"t0": ["bool", "Qint[2]"], "t1": ["bool", "Qint[2]"]}))
+    T.append(("def tfun(a: Tuple[{t0}, {t1}]) -> Tuple[{t1}, {t0}]:\n    return (a[1], a[0])\n", {"t0": ["bool", "Qint[2]"], "t1": ["bool", "Qint[2]"]}))
+    T.append(("def tfun(a: Tuple[{t0}, {t1}]) -> Tuple[{t0}, {t1}]:\n    b = a\n    return b\n", {"t0": ["bool", "Qint[2]"], "t1": ["bool", "Qint[2]"]}))
+    T.append(("def tfun(a: Tuple[{t0}, {t1}], c: bool) -> Tuple[{t0}, {t1}]:\n    b = ({x}, {y})\n    return {r}\n",
+              {"t0": ["bool"], "t1": ["bool"], "x": ["a[1]", "c", "not a[0]"], "y": ["a[0]", "c and a[1]"], "r": ["b", "(b if c else a)", "(b[1], b[0])"]}))
+    T.append(("def tfun(a: Qlist[bool, 2]) -> Qlist[bool, 2]:\n    {body}\n", {"body": ["return a", "return [a[1], a[0]]", "return [a[0], a[0]]", "b = a\n    return b", "return [not a[0], a[0] and a[1]]"]}))
+    T.append(("def tfun(a: Qmatrix[bool, 2, 2]) -> Qmatrix[bool, 2, 2]:\n    {body}\n",
+              {"body": ["return a", "return [[a[0][0], a[1][0]], [a[0][1], a[1][1]]]", "return [[a[1][1], a[1][0]], [a[0][1], a[0][0]]]"]}))
+    # tuple comparisons
+    T.append(("def tfun(a: Tuple[{t0}, {t1}], b: Tuple[{t0}, {t1}]) -> bool:\n    return a {c} b\n",
+              {"t0": ["bool", "Qint[2]"], "t1": ["bool", "Qint[2]"], "c": ["==", "!="]}))
+    T.append(("def tfun(a: Tuple[bool, bool], c: bool) -> bool:\n    return a {c} ({x}, {y})\n", {"c": ["==", "!="], "x": ["c", "True", "a[1]"], "y": ["c", "False", "a[0]"]}))
+    # min / max / sum / len var-arg and tuple forms
+    T.append(("def tfun(a: Qint[{wa}], b: Qint[{wb}]) -> {rt}:\n    return {f}({args})\n",
+              {"wa": ["2"], "wb": ["2", "4"], "rt": ["Qint[4]"], "f": ["max", "min"], "args": ["a, b", "b, a", "a, b, 1", "a, 2", "3, b, a", "a, a", "(a, b)", "[b, a, 2]"]}))
+    T.append(("def tfun(a: Qint[{wa}], b: Qint[{wb}]) -> {rt}:\n    return {e}\n",
+              {"wa": ["2"], "wb": ["2", "4"], "rt": ["Qint[4]"], "e": ["sum([a, b])", "sum((a, b, 1))", "sum([a, a, a])", "max(a, b) - min(a, b)", "max(a, b) + 1", "len([a, b]) + a", "len((a, b, a))",
+                                                                      "min(a + 1, b)", "max(a & b, a ^ b)"]}))
+    T.append(("def tfun(a: Qint[2], b: Qint[2]) -> bool:\n    return {e}\n",
+              {"e": ["max(a, b) == a", "min(a, b) == a", "max(a, b) >= min(a, b)", "all([a > 1, b > 1])", "any([a == 0, b == 0])", "all([a[0], b[1], a[1]])", "any([a[0], b[0]]) and not all([a[0], b[0]])",
+                     "sum([a, b]) > 3", "len([a, b]) == 2"]}))
+    # Qchar
+    T.append(("def tfun(a: Qchar) -> bool:\n    return {e}\n", {"e": ["a == 'a'", "a != 'z'", "a == 'a' or a == 'b'", "not (a == '0')"]}))
+    T.append(("def tfun(a: Qchar) -> Qchar:\n    return {e}\n", {"e": ["a", "'c'", "('x' if a == 'y' else a)", "('a' if a == 'b' else 'b')", "chr(ord(a))"]}))
+    T.append(("def tfun(a: Qint[2]) -> Qchar:\n    return {e}\n", {"e": ["'a'", "('a' if a == 1 else 'b')", "['a', 'b', 'c', 'd'][a]"]}))
+    T.append(("def tfun(a: Qchar, b: Qchar) -> bool:\n    return {e}\n", {"e": ["a == b", "a != b", "(a == 'k') and (b == 'k')"]}))
+    # Qint bit access, typed constants, wider widths
+    T.append(("def tfun(a: Qint[{w}]) -> bool:\n    return {e}\n",
+              {"w": ["2", "3", "4", "5", "6", "8"], "e": ["a[0]", "a[1]", "a[0] ^ a[1]", "a == 1", "a > 2", "a < 3", "a != 3", "a >= 1", "a <= 2", "a == 5", "a > 5"]}))
+    T.append(("def tfun(a: Qint[{w}]) -> Qint[{w}]:\n    return {e}\n",
+              {"w": ["2", "3", "4"], "e": ["a", "a + 1", "a - 1", "a + a", "a ^ 3", "~a", "a >> 1", "a << 1", "a & 5", "a | 1", "a % 2", "a % 4", "a + 3", "3 - a", "a * 2", "a * 3", "a * 4",
+                                            "a * 5", "a * 6", "a * 7", "a * 8", "a * 10", "a * 12", "a * a", "a ** 2", "0 * a", "a * 0", "a * 1"]}))
+    T.append(("def tfun(a: Qint[{w}]) -> Qint[{w}]:\n    return {e}\n",
+              {"w": ["5", "6", "8"], "e": ["a", "a + 1", "a - 1", "a + a", "a ^ 3", "~a", "a >> 1", "a << 1", "a & 5", "a | 1", "a % 2", "a % 4", "a + 3", "3 - a", "a * 2", "a * 4", "a * 6", "a * 1"]}))
+    T.append(("def tfun(a: Qint[{w}]) -> Qint[{w2}]:\n    return {e}\n",
+              {"w": ["2", "3", "4"], "w2": ["4", "6", "8"], "e": ["a * 2", "a * 3", "a * 4", "a * 5", "a * 6", "a * 7", "a * 10", "a * 12", "a * 14", "a * a", "a ** 2", "a ** 3", "a * a + a", "6 * a", "a * 6 + 1"]}))
+    T.append(("def tfun(a: Qint[{w}]) -> Qint[{w}]:\n    c = Qint{w}({v})\n    return a {op} c\n", {"w": ["2", "4"], "v": ["0", "1", "3"], "op": ["+", "-", "^", "&"]}))
+    T.append(("def tfun(a: Qint[{w}]) -> bool:\n    s = Qint{w}({v})\n    return {e}\n", {"w": ["2", "4"], "v": ["0", "1", "2", "3"], "e": ["a == s", "(a[0] & s[0]) ^ (a[1] & s[1])", "a > s"]}))
+    # Qfixed
+    T.append(("def tfun(a: Qfixed[{i}, {f}], b: Qfixed[{i}, {f}]) -> bool:\n    return a {c} b\n", {"i": ["1", "2"], "f": ["2"], "c": CMPS}))
+    T.append(("def tfun(a: Qfixed[{i}, {f}], b: Qfixed[{i}, {f}]) -> Qfixed[{i}, {f}]:\n    return {e}\n",
+              {"i": ["1", "2"], "f": ["2"], "e": ["a", "a + b", "a - b", "b - a", "a + a", "(a if a > b else b)"]}))
+    T.append(("def tfun(a: Qfixed[{i}, {f}]) -> bool:\n    return a {c} {k}\n", {"i": ["1", "2"], "f": ["2", "3"], "c": CMPS, "k": ["0.5", "1.0", "0.25", "1.5", "0.75"]}))
+    T.append(("def tfun(a: Qfixed[{i}, {f}]) -> Qfixed[{i}, {f}]:\n    return {e}\n",
+              {"i": ["1", "2"], "f": ["2", "3"], "e": ["a + 0.5", "a - 0.25", "a + 1.0", "a * 2", "a * 3", "2 * a", "a * 0", "a + 0.75", "0.5 + a", "1.5 - a"]}))
+    T.append(("def tfun(a: Qfixed[2, 2]) -> Qint[2]:\n    return int(a)\n", {}))
+    T.append(("def tfun(a: Qfixed[{i}, {f}]) -> Qfixed[{i}, {f}]:\n    return float(a)\n", {"i": ["1", "2"], "f": ["2"]}))
+    T.append(("def tfun(a: Qint[2]) -> Qfixed[2, {f}]:\n    return float(a)\n", {"f": ["2", "3"]}))
+    T.append(("def tfun(a: Qint[2]) -> Qint[2]:\n    return int(a)\n", {}))
+    return T
+
+
+def t_shards(tier):
+    out = _tmpl_shards("T", t_templates(tier), 30)
+    for d in out:
+        d["tier"] = tier
+    return out
+
+
+def t_cases(shard):
+    for src in _tmpl_cases(t_templates(shard["tier"]), shard):
+        yield {"src": src, "fam": "T"}
+
+
+# ----------------------------------------------------------------------------------------
+# Family R: constructs outside the documented subset whose Python meaning is well defined
+# ----------------------------------------------------------------------------------------
+def r_templates(tier):
+    T = []
+    SIG = ["a: Qint[2], b: Qint[2]", "a: Qint[4], b: Qint[2]"]
+    RT = ["Qint[2]", "Qint[4]"]
+    T.append(("def tfun({sig}) -> {rt}:\n    return {e}\n",
+              {"sig": SIG, "rt": RT, "e": ["a % 3", "a % 5", "a % 6", "a % 7", "a % b", "a // 2", "a // b", "a // 3", "-a", "abs(a)", "a ** b", "a << b", "a >> b",
+                                           "3 % a", "a % 3 + 1", "(a + b) % 3", "+a", "a - -1", "a + (-1)", "a * -1", "a @ b", "a if a else b", "a and b", "a or b"]}))
+    T.append(("def tfun({sig}) -> bool:\n    return {e}\n",
+              {"sig": SIG, "e": ["0 < a < 3", "a < b < 3", "a == b == 1", "a in [1, 2]", "a not in [0]", "a is b", "a is not b", "not a", "a > 1 > b", "bool(a)", "a == True", "a != False",
+                                 "(lambda x: x > 1)(a)", "a[4]", "a[-1]", "a[0:1]", "a[b]", "a[5] or b[0]", "a and True", "a.real > 1", "a > 1.5", "a == 'a'"]}))
+    T.append(("def tfun({sig}) -> {rt}:\n    {body}\n",
+              {"sig": SIG, "rt": RT, "body": [
+                  "while a > 0:\n        a = a - 1\n    return a",
+                  "if a > b:\n        return a\n    return b",
+                  "if a > b:\n        return a\n    else:\n        return b",
+                  "c = [1, 2, 3]\n    return c[1:2][0]",
+                  "c = [1, 2, 3, 0]\n    return c[-1] + a",
+                  "c = [1, 2]\n    return c[a]",
+                  "c = [1, 2, 3, 0, 1]\n    return c[a + b]",
+                  "for i in range(a):\n        b += 1\n    return b",
+                  "c = 0\n    for i in range(3):\n        c += i\n        if i == 1:\n            break\n    return c + a",
+                  "c = 0\n    for i in range(3):\n        if i == 1:\n            continue\n        c += i\n    return c + a",
+                  "c = a\n    c += True\n    return c",
+                  "c = a + True\n    return c",
+                  "c = {1: 2}\n    return c[1] + a",
+                  "c = a\n    del c\n    return a",
+                  "global zz\n    return a",
+                  "assert a > 0\n    return a",
+                  "pass\n    return a",
+                  "c: Qint[2] = 1\n    return a + c",
+                  "c = unknown_fun(a)\n    return c",
+                  "c: Qint[3] = a\n    return c",
+                  "try:\n        c = a\n    except Exception:\n        c = b\n    return c",
+                  "with a:\n        pass\n    return a",
+                  "a, b = b\n    return a",
+                  "a = b = 1\n    return a + b",
+                  "c = (a, b)\n    c[0] = b\n    return c[0]",
+                  "return a if b else a",
+                  "x = [a, b]\n    x[0] = 1\n    return x[0]",
+                  "return max(a)", "return min()", "return sum(a, b)", "return len(a)", "return sum([a, True])", "return abs(a - b)",
+                  "return divmod(a, b)[0]", "return pow(a, 2)", "return round(a)", "return int(a > b)", "return (a > b) + 1", "return a + (a > b)",
+              ]}))
+    T.append(("def tfun(a: bool, b: bool) -> bool:\n    return {e}\n",
+              {"e": ["a < b", "a <= b", "a > b", "a >= b", "a + b", "a - b", "a * b", "~a", "-a", "a & b", "a | b", "a ^ b", "a == 1", "a != 0", "a is b", "a in [b]", "a < b < True",
+                     "a if a < b else b", "a << b", "a >> 1", "a % 2", "a // 1", "a ** b", "max(a, b)", "min(a, b)", "sum([a, b])", "abs(a)", "int(a)", "bool(a)", "a[0]", "len(a)"]}))
+    T.append(("def tfun(a: bool, b: bool) -> {rt}:\n    return {e}\n",
+              {"rt": ["Qint[2]", "Qint[4]"], "e": ["a", "a + b", "a + 1", "1 if a else 0", "a * 2", "a << 1", "int(a)", "sum([a, b])", "(1 if a else 0) + (1 if b else 0)", "a & 1", "True", "2 if a else b"]}))
+    T.append(("def tfun(a: {t}) -> {rt}:\n    return a\n",
+              {"t": ["int", "float", "str", "Qint", "Qint[1]", "Qint[9]", "Qint[0]", "Qfixed[1, 1]", "Tuple", "Qlist[bool]", "Qlist[bool, 0]", "List[bool]", "list", "Qfoo[2]", "Qint[2][0]", "bool[2]", "None"],
+               "rt": ["bool", "Qint[2]"]}))
+    T.append(("def tfun(a: Qint[2]){rt}:\n    return a\n", {"rt": ["", " -> None", " -> int", " -> Qint[1]", " -> Tuple[Qint[2]]", " -> Qlist[Qint[2], 1]", " -> bool", " -> Qchar", " -> Qfixed[1, 2]", " -> Tuple[bool, bool]",
+                                                               " -> Qint[3]", " -> Qint[16]"]}))
+    T.append(("def tfun(a: Qint[2], b: Qint[2] = 1) -> Qint[2]:\n    return a + b\n", {}))
+    T.append(("def tfun(a: Qint[2], *b) -> Qint[2]:\n    return a\n", {}))
+    T.append(("def tfun(a: Qint[2], b) -> Qint[2]:\n    return a\n", {}))
+    T.append(("def tfun(a: Qint[2], a2: Qint[2]) -> Qint[2]:\n    {v} = a + 1\n    return {v} + a2\n", {"v": ["__x", "_ret", "_x", "x0", "x1", "a2", "anc_0", "TRUE", "FALSE", "q0", "_iftarg2", "_temptup", "tfun", "Qint", "bool", "True_"]}))
+    T.append(("def tfun(a: Tuple[bool, bool]) -> bool:\n    return {e}\n", {"e": ["a[2]", "a[-1]", "a[0][0]", "a[True]", "a[0:1][0]", "a < (True, False)", "a == (True,)", "a == (True, False, True)", "a + a == a", "a[1 - 1]", "a[0 + 1]", "a[len(a) - 1]", "a[len(a)]"]}))
+    T.append(("def tfun(a: Qlist[Qint[2], 2], i: Qint[2]) -> Qint[2]:\n    return {e}\n", {"e": ["a[i + 1]", "a[i][0]", "a[i] + a[i]", "a[a[0]]", "a[i % 2]", "a[i & 1]", "a[i >> 1]"]}))
+    return T
+
+
+def r_shards(tier):
+    out = _tmpl_shards("R", r_templates(tier), 60)
+    for d in out:
+        d["tier"] = tier
+    return out
+
+
+def r_cases(shard):
+    for src in _tmpl_cases(r_templates(shard["tier"]), shard):
+        yield {"src": src, "fam": "R"}
+
+
+# ----------------------------------------------------------------------------------------
+FAMILIES = {"B": (b_shards, b_cases), "I1": (i1_shards, i1_cases), "S": (s_shards, s_cases),
+            "T": (t_shards, t_cases), "R": (r_shards, r_cases)}
 
 
 def prog_shards(families, tier):
